@@ -4,11 +4,16 @@ package tor
 
 import (
 	"context"
+	"math/rand/v2"
+	"net"
 	"net/netip"
+	"time"
 
 	"github.com/jech/storrent/config"
+	"github.com/jech/storrent/crypto"
 	"github.com/jech/storrent/hash"
 	"github.com/jech/storrent/peer"
+	"github.com/jech/storrent/protocol"
 	"github.com/jech/storrent/tracker"
 	"github.com/jech/storrent/webseed"
 )
@@ -29,12 +34,23 @@ type vTracker struct {
 	calls        int
 	port4, port6 int
 	proxy        string
+	t            *Torrent // when set: the torrent whose switch is sampled at the moment the loop consults the tracker
+	enabledAtAsk bool
+	badCalls     int // announces decided while tracker use was disabled
 }
 
-func (tr *vTracker) URL() string                         { return "tr" }
-func (tr *vTracker) GetState() (tracker.State, error)    { return tracker.Ready, nil }
+func (tr *vTracker) URL() string { return "tr" }
+func (tr *vTracker) GetState() (tracker.State, error) {
+	if tr.t != nil {
+		tr.enabledAtAsk = tr.t.useTrackers
+	}
+	return tracker.Ready, nil
+}
 func (tr *vTracker) Announce(ctx context.Context, hash []byte, myid []byte, want int, size int64, port4, port6 int, proxy string, f func(netip.AddrPort) bool) error {
 	tr.calls++
+	if tr.t != nil && !tr.enabledAtAsk {
+		tr.badCalls++
+	}
 	tr.port4, tr.port6, tr.proxy = port4, port6, proxy
 	return nil
 }
@@ -62,11 +78,17 @@ func H_C18_announce() {
 		t.infoComplete = 0
 	}
 	ctx := context.Background()
+	tr := &vTracker{t: t}
+	t.trackers = [][]tracker.Tracker{{tr}}
+	t.rand = rand.New(rand.NewPCG(1, 2))
 	if vBool("setconf") {
 		conf := peer.TorConf{DhtMode: config.DhtMode(vChoose("dht2", 0, 2)), UseTrackers: vBool("trackers2"), UseWebseeds: vBool("webseeds2")}
 		err := handleEvent(ctx, t, peer.TorSetConf{Conf: conf})
+		vJoin()
 		vAssert(err == nil, "a configuration change does not stop the torrent")
 		vReach("reconfigured")
+		vAssert(tr.badCalls == 0, "a configuration change contacts no tracker while tracker use is (now) disabled")
+		vAssert(vImp(tr.calls > 0 && t.proxy != "", tr.port4 == 0 && tr.port6 == 0), "a configuration change reveals no port to a tracker when proxied")
 		vAssert(t.dhtMode == conf.DhtMode && t.useTrackers == conf.UseTrackers && t.useWebseeds == conf.UseWebseeds, "a configuration change is applied as requested")
 	}
 	vDhtCalls, vDhtPort = 0, 0
@@ -138,9 +160,14 @@ func H_C18_infoHashes() {
 // proxied), and announces to the DHT only when the DHT mode is not 'none'.
 func H_C18_loop() {
 	t := vConfTorrent()
-	tr := &vTracker{}
+	tr := &vTracker{t: t}
 	t.trackers = [][]tracker.Tracker{{tr}}
 	vDhtCalls, vDhtPort = 0, 0
+	reconf := vBool("setconf")
+	if reconf {
+		// a configuration change is waiting in the queue: the loop takes it before, between or after the ticks
+		t.Event <- peer.TorSetConf{Conf: peer.TorConf{DhtMode: t.dhtMode, UseTrackers: vBool("trackers2"), UseWebseeds: t.useWebseeds}}
+	}
 	vTickers(2, 2)
 	ctx := context.Background()
 	go func() {
@@ -156,8 +183,95 @@ func H_C18_loop() {
 	if vDhtCalls > 0 {
 		vReach("dht-announced")
 	}
-	vAssert(vImp(tr.calls > 0, t.useTrackers), "the periodic loop contacts a tracker only while tracker use is enabled")
+	vAssert(tr.badCalls == 0, "the loop contacts a tracker only while tracker use is enabled (sampled when it decides to announce)")
+	vAssert(vImp(tr.calls > 0 && !reconf, t.useTrackers), "the periodic loop contacts a tracker only while tracker use is enabled")
 	vAssert(vImp(tr.calls > 0 && t.proxy != "", tr.port4 == 0 && tr.port6 == 0), "the periodic loop reveals no port to a tracker when proxied")
 	vAssert(vImp(vDhtCalls > 0, t.dhtMode > config.DhtNone), "the periodic loop announces to the DHT only when the mode is not 'none'")
 	vAssert(vImp(vDhtPort != 0, t.dhtMode >= config.DhtNormal && t.proxy == ""), "the periodic loop advertises a port only in 'normal' mode without a proxy")
+}
+
+// ---- incoming connections ----
+
+type vInConn struct{ closed bool }
+
+func (c *vInConn) Read(b []byte) (int, error)         { return 0, nil }
+func (c *vInConn) Write(b []byte) (int, error)        { return len(b), nil }
+func (c *vInConn) Close() error                       { c.closed = true; return nil }
+func (c *vInConn) LocalAddr() net.Addr                { return nil }
+func (c *vInConn) RemoteAddr() net.Addr               { return &net.TCPAddr{IP: net.IP{8, 8, 8, 8}, Port: 4000} }
+func (c *vInConn) SetDeadline(t time.Time) error      { return nil }
+func (c *vInConn) SetReadDeadline(t time.Time) error  { return nil }
+func (c *vInConn) SetWriteDeadline(t time.Time) error { return nil }
+
+// models of the address predicates of package net (the remote address is 8.8.8.8)
+func vIsGlobalUnicast(ip net.IP) bool { return vBool("global") }
+func vTo4(ip net.IP) net.IP {
+	if len(ip) == 4 {
+		return ip
+	}
+	return nil
+}
+func vTo16(ip net.IP) net.IP { return nil }
+
+var vOffered []hash.HashPair
+var vNewPeerOn *Torrent
+
+// vServerHandshake stands in for protocol.ServerHandshake: it records the torrents it is offered
+// and either fails or - like the real one - succeeds for ONE OF THE OFFERED torrents (any of
+// them), with an arbitrary remote peer id.
+func vServerHandshake(c net.Conn, hashes []hash.HashPair, o *crypto.Options) (net.Conn, protocol.HandshakeResult, []byte, error) {
+	vOffered = hashes
+	if len(hashes) == 0 || vBool("hs-fails") {
+		return c, protocol.HandshakeResult{}, nil, protocol.ErrUnknownTorrent
+	}
+	k := 0
+	if len(hashes) > 1 && vBool("hs-second") {
+		k = 1
+	}
+	id := vBytes("remote-id", 20)
+	vAssume(len(id) == 20)
+	return c, protocol.HandshakeResult{Hash: hashes[k].First, Id: id[:20]}, nil, nil
+}
+func vNewPeer(t *Torrent, proxy string, conn net.Conn, addr netip.AddrPort, incoming bool, result protocol.HandshakeResult, init []byte) error {
+	vNewPeerOn = t
+	return nil
+}
+func vSrvStats(t *Torrent) (*peer.TorStats, error) {
+	return &peer.TorStats{NumPeers: vInt("npeers")}, nil
+}
+func vSrvDropPeer(t *Torrent) (bool, error)                    { return vBool("dropped"), nil }
+func vSrvGetPeer(t *Torrent, id hash.Hash) (*peer.Peer, error) { return nil, nil }
+
+// H_C18_server: the REAL tor.Server on an incoming connection from a global address, two torrents
+// registered, each proxied or not: the handshake is offered only unproxied torrents (so a proxied
+// torrent's info-hash is never answered and its peer id never shown), and no incoming connection
+// ever becomes a peer of a proxied torrent.
+func H_C18_server() {
+	h0 := hash.Hash([]byte{0, 1, 2, 3, 4, 5, 6, 7, 8, 9, 10, 11, 12, 13, 14, 15, 16, 17, 18, 19})
+	h1 := hash.Hash([]byte{1, 1, 2, 3, 4, 5, 6, 7, 8, 9, 10, 11, 12, 13, 14, 15, 16, 17, 18, 19})
+	t0 := VRegister(h0, "a", nil, 100)
+	t1 := VRegister(h1, "b", nil, 100)
+	t0.MyId, t1.MyId = make([]byte, 20), make([]byte, 20)
+	if vBool("p0") {
+		t0.proxy = "socks5://x"
+	}
+	if vBool("p1") {
+		t1.proxy = "socks5://x"
+	}
+	vOffered, vNewPeerOn = nil, nil
+	conn := &vInConn{}
+	err := Server(conn, &crypto.Options{})
+	vReach("served")
+	for _, hp := range vOffered {
+		vAssert(vImp(hp.First.Equal(h0), t0.proxy == "") && vImp(hp.First.Equal(h1), t1.proxy == ""), "an incoming handshake is never offered a proxied torrent")
+	}
+	if vNewPeerOn != nil {
+		vReach("accepted")
+		vAssert(err == nil && vNewPeerOn.proxy == "", "an incoming connection never becomes a peer of a proxied torrent")
+	} else {
+		vReach("refused")
+		vAssert(conn.closed, "a refused connection is closed")
+	}
+	del(h0)
+	del(h1)
 }
